@@ -135,9 +135,22 @@ func c10L1(r *Run) {
 				if !ok {
 					continue
 				}
-				if id, ok := kv.Key.(*ast.Ident); ok && id.Name == "lock" {
-					if call, ok := kv.Value.(*ast.CallExpr); ok {
-						if f, ok := call.Fun.(*ast.Ident); ok && f.Name == "new" {
+				if id, ok := kv.Key.(*ast.Ident); ok {
+					// the mutex field, whatever its name: the field of type *sync.Mutex
+					fv, _ := pk.TypesInfo.Uses[id].(*types.Var)
+					if fv == nil {
+						continue
+					}
+					if pt, isPtr := fv.Type().(*types.Pointer); !isPtr || !isNamed(pt.Elem(), "sync", "Mutex") {
+						continue
+					}
+					switch v := kv.Value.(type) {
+					case *ast.CallExpr:
+						if f, ok := v.Fun.(*ast.Ident); ok && f.Name == "new" {
+							fresh = true
+						}
+					case *ast.UnaryExpr:
+						if _, isLit := v.X.(*ast.CompositeLit); isLit && v.Op == token.AND {
 							fresh = true
 						}
 					}
